@@ -91,11 +91,27 @@ func run(gitbug string, s Schedule) string {
 		}
 		return ""
 	}
+	nport := 0
 	for i, st := range s.Steps {
+		// a holder that went away by itself (its web server could not listen, say) is a failure of this driver, not of the lock
+		for hn, h := range holders {
+			if h == nil {
+				continue
+			}
+			select {
+			case err := <-h.done:
+				return fmt.Sprintf("DRIVER: holder %d (pid %d) exited by itself before step %d: %v: %s", hn, h.cmd.Process.Pid, i+1, err, h.stderr.String())
+			default:
+			}
+		}
 		before := lockContent(dir)
 		switch st.Act {
 		case "Open":
-			cmd := exec.Command(gitbug, "webui", "--no-open", "--host", "127.0.0.1")
+			// a port of this process's own range: the "free port" the command would pick by itself is found by binding and
+			// releasing it, which two holders started at the same moment can both win
+			nport++
+			port := 20000 + (os.Getpid()%2500)*16 + nport%16
+			cmd := exec.Command(gitbug, "webui", "--no-open", "--host", "127.0.0.1", "--port", strconv.Itoa(port))
 			cmd.Dir, cmd.Env = dir, env
 			eb := &bytes.Buffer{}
 			cmd.Stderr, cmd.Stdout = eb, eb
